@@ -67,12 +67,16 @@ func runWorld(t *testing.T, o *sim.Outcome, p *GPlan, fr *fresh, exec string, ex
 				o.Probe("two_requests_in_one_process_at_the_same_time")
 			}
 			obB := wB.doRun(&p.Runs[1], noExtra())
+			if check {
+				// judged at once: run 0 may still take hours of simulated time (a slow CA), and what run 1
+				// provisioned has a finite lifetime in its agent
+				checkRun(o, wB, 1, &p.Runs[1], obB, fr, exec)
+			}
 			close(gate)
 			<-doneA
 			w.runs = append(w.runs, obB)
 			if check {
 				checkRun(o, w, 0, &p.Runs[0], obA, fr, exec)
-				checkRun(o, wB, 1, &p.Runs[1], obB, fr, exec)
 			}
 			wB.closeShared()
 			first = 2
